@@ -39,6 +39,7 @@ func rulesC20(c *Ctx, r *Report) {
 		e.rulePure(r, "PURE", gs, "m")
 		rulesGoString(c, r, gs)
 	}
+	rulesGenNCBI(c, r)
 }
 
 func rulesReadNCBI(c *Ctx, r *Report, rd, ex *ssa.Function) {
@@ -592,4 +593,96 @@ func keyKind(k ssa.Value) string {
 		return "mirrored"
 	}
 	return ""
+}
+
+// rulesGenNCBI (GEN): the generator command prints, with %#v, the very matrix ReadNCBI returned, after adding
+// nothing but {Gap,Gap} = 0 — "the Go source generated from it reproduces the matrix".
+func rulesGenNCBI(c *Ctx, r *Report) {
+	f := c.fn("align/genncbi", "main")
+	where := "align/genncbi.main"
+	if f == nil {
+		r.undecided("GEN", where, "anchor", "", "generator command not found")
+		return
+	}
+	r.analysed(where)
+	var read *ssa.Call
+	instrs(f, func(in ssa.Instruction) {
+		if cl, ok := in.(*ssa.Call); ok && fnIs(cl.Call.StaticCallee(), modPath+"/formats/smtext", "ReadNCBI") {
+			read = cl
+		}
+	})
+	if read == nil {
+		r.undecided("GEN", where, "source", c.pos(f.Pos()), "no smtext.ReadNCBI call found")
+		return
+	}
+	var m ssa.Value
+	for _, ref := range *read.Referrers() {
+		if ex, ok := ref.(*ssa.Extract); ok && ex.Index == 0 {
+			m = ex
+		}
+	}
+	if m == nil {
+		r.undecided("GEN", where, "source", c.pos(read.Pos()), "ReadNCBI's matrix result is not used")
+		return
+	}
+	// the %#v operand
+	okPrinted, printed := false, ""
+	instrs(f, func(in ssa.Instruction) {
+		cl, ok := in.(*ssa.Call)
+		if !ok || cl.Call.StaticCallee() == nil || !strings.HasPrefix(qname(cl.Call.StaticCallee()), "fmt.") {
+			return
+		}
+		args := cl.Call.Args
+		for i, a := range args {
+			if fs, ok := constStr(a); ok && strings.Contains(fs, "%#v") {
+				ops := orderedVarargs(args[i+1:])
+				// the operand matching %#v: count verbs before it
+				idx := strings.Count(fs[:strings.Index(fs, "%#v")], "%")
+				if idx < len(ops) {
+					printed = newSymb(f).expr(ops[idx]).String()
+					okPrinted = ops[idx] == m
+				}
+			}
+		}
+	})
+	r.check(okPrinted, "GEN", where, "printed matrix", c.pos(read.Pos()), "the value formatted with %#v is the matrix returned by ReadNCBI itself", "the value formatted with %#v is "+printed+", not the matrix ReadNCBI returned: the generated table is not the table that was read")
+	// updates of that matrix: only {Gap, Gap} = 0
+	var bad []string
+	nUpd := 0
+	s := newSymb(f)
+	instrs(f, func(in ssa.Instruction) {
+		mu, ok := in.(*ssa.MapUpdate)
+		if !ok || mu.Map != m {
+			return
+		}
+		nUpd++
+		key := "?"
+		if ld, ok := mu.Key.(*ssa.UnOp); ok {
+			if al, ok := ld.X.(*ssa.Alloc); ok {
+				el := map[int64]string{}
+				for _, ref := range *al.Referrers() {
+					if ia, ok := ref.(*ssa.IndexAddr); ok {
+						k, _ := cInt(constVal(ia.Index))
+						for _, r2 := range *ia.Referrers() {
+							if st, ok := r2.(*ssa.Store); ok {
+								if kv := constVal(st.Val); kv != nil {
+									el[k] = kv.ExactString()
+								} else {
+									el[k] = "?"
+								}
+							}
+						}
+					}
+				}
+				key = "[" + el[0] + " " + el[1] + "]"
+			}
+		} else if kc, ok := mu.Key.(*ssa.Const); ok {
+			key = kc.String()
+		}
+		v, okv := cFloat(constVal(mu.Value))
+		if key != "[255 255]" || !okv || v != 0 {
+			bad = append(bad, s.expr(mu.Key).String()+" = "+s.expr(mu.Value).String()+" (key "+key+")")
+		}
+	})
+	r.check(len(bad) == 0, "GEN", where, "only {Gap,Gap} added", c.pos(read.Pos()), fmt.Sprintf("the only update of the matrix before printing (%d) is {Gap,Gap} = 0", nUpd), "the matrix is modified before printing other than by {Gap,Gap} = 0: "+strings.Join(bad, "; "))
 }
